@@ -52,6 +52,8 @@ func captureNames(body []*Node, globals ...Global) []string {
 
 // genTransform generates a well-typed, terminating transform body over match,
 // matchLength and the given capture names (strings).
+var transformBuiltins = []string{"startOffset", "endOffset", "totalMatches", "lineNumber", "columnNumber", "value", "matchNumber"}
+
 func genTransform(t *rapid.T, caps []string) []Stmt {
 	eg := &exprGen{t: t, vars: map[PType][]string{TString: append([]string{"match"}, caps...), TNumber: {"matchLength"}}}
 	stmts := declareVars(eg)
@@ -60,6 +62,15 @@ func genTransform(t *rapid.T, caps []string) []Stmt {
 	if rapid.IntRange(0, 2).Draw(t, "leaky") == 0 {
 		stmts = append(stmts, Stmt{K: "set", Name: "lk", E: Bin("+", Var("lk", TString), Str("k"))})
 		eg.vars[TString] = append(eg.vars[TString], "lk")
+	}
+	if rapid.IntRange(0, 3).Draw(t, "builtin") == 0 {
+		// the per-match built-ins are part of the environment a transform is run with;
+		// whether they are strings or numbers there is documented nowhere, so they are
+		// only used where both readings agree: on the right of a string concatenation
+		b1 := rapid.SampledFrom(transformBuiltins).Draw(t, "builtin1")
+		b2 := rapid.SampledFrom(transformBuiltins).Draw(t, "builtin2")
+		stmts = append(stmts, Stmt{K: "set", Name: "bi", E: Bin("+", Bin("+", Bin("+", Str("<"), Var(b1, TString)), Str(":")), Var(b2, TString))})
+		eg.vars[TString] = append(eg.vars[TString], "bi")
 	}
 	if rapid.IntRange(0, 3).Draw(t, "chop") == 0 {
 		stmts = append(stmts, Stmt{K: "set", Name: "match", E: Un("tail", Var("match", TString))})
